@@ -59,6 +59,9 @@ type Config struct {
 	StopOn string
 	// NoRecorders disables the router-test recorders (observer-transparency self-test)
 	NoRecorders bool
+	// IsKnown says whether a violation is a recorded open finding: those are counted and the
+	// run goes on (so that a known defect does not hide what lies behind it)
+	IsKnown func(prop, fp string) bool
 }
 
 type taskKind int
@@ -213,6 +216,8 @@ type World struct {
 	rec        *recorder
 	skew       time.Duration
 	msgSerial  int
+	// KnownSeen counts violations that match recorded open findings
+	KnownSeen map[string]int
 	// HarnessErrors are defects of the simulator itself (never verdicts)
 	HarnessErrors []string
 }
@@ -238,6 +243,13 @@ func (w *World) logf(format string, args ...any) {
 
 // Violate records an oracle failure.
 func (w *World) Violate(prop, oracle, fp, msg string) {
+	if w.Cfg.IsKnown != nil && w.Cfg.IsKnown(prop, fp) {
+		if w.KnownSeen == nil {
+			w.KnownSeen = map[string]int{}
+		}
+		w.KnownSeen[fp]++
+		return
+	}
 	call := len(w.Calls)
 	w.Violations = append(w.Violations, Violation{Prop: prop, Oracle: oracle, Fingerprint: fp, Msg: msg, Call: call})
 	w.logf("VIOLATION %s %s %s: %s", prop, oracle, fp, clip(firstLine(msg), 300))
